@@ -164,6 +164,8 @@ void vp_init(void);                       /* empty descriptor table, symbolic cl
 int vp_add_fd(int fd, int kind, int acc, int owner, int tag, bool cloexec);
 void vp_user_close(int fd);               /* the *caller* closes one of its descriptors */
 void vp_new_child_params(int c);
+void vp_test_child(int c, int state);
+int vp_test_pipe(int c, bool parent_reads, bool child_holds, int len);
 void vp_exec_done(void);                  /* children have exec'd: attach their pipe ends */
 void vp_progress(void);                   /* let the children act "until now" */
 int vp_status_decode(int status);         /* reference decoding: code or 128+sig */
